@@ -28,6 +28,90 @@ func sortedPaths(files map[string]string) []string {
 	return out
 }
 
+// Entry-name styles: an archive names its entries as the archiver wrote them, not in buf's normal form.
+// Every style names the same tree.
+//
+//	clean       top/a/x.proto      (what storagearchive.Tar / zip -r write)
+//	dotslash    ./top/a/x.proto    (`tar -cf x.tar ./top`, `tar -C dir -cf x.tar .`; with a "./" directory entry)
+//	doubleslash top//a/x.proto     (`tar -cf x.tar top//a`, path joins with a trailing slash)
+//	dotsegment  top/./a/x.proto    (`tar -cf x.tar top/./a`)
+var entryStyles = []string{"dotslash", "doubleslash", "dotsegment"}
+
+func styledName(style, name string) string {
+	switch style {
+	case "dotslash":
+		return "./" + name
+	case "doubleslash":
+		return strings.Replace(name, "/", "//", 1)
+	case "dotsegment":
+		return strings.Replace(name, "/", "/./", 1)
+	}
+	return name
+}
+
+// styledTarBytes writes the tree below prefix with the given entry-name style, with directory entries
+// first (as tar does), the root directory entry "./" included for the dotslash style.
+func styledTarBytes(files map[string]string, prefix, style string) ([]byte, error) {
+	var buf bytes.Buffer
+	tw := tar.NewWriter(&buf)
+	paths := sortedPaths(files)
+	dirs := map[string]bool{}
+	for _, p := range paths {
+		parts := strings.Split(prefix+p, "/")
+		for i := 1; i < len(parts); i++ {
+			dirs[strings.Join(parts[:i], "/")+"/"] = true
+		}
+	}
+	var ds []string
+	for d := range dirs {
+		ds = append(ds, d)
+	}
+	sort.Strings(ds)
+	if style == "dotslash" {
+		if err := tw.WriteHeader(&tar.Header{Typeflag: tar.TypeDir, Name: "./", Mode: 0o755}); err != nil {
+			return nil, err
+		}
+	}
+	for _, d := range ds {
+		if err := tw.WriteHeader(&tar.Header{Typeflag: tar.TypeDir, Name: styledName(style, d), Mode: 0o755}); err != nil {
+			return nil, err
+		}
+	}
+	for _, p := range paths {
+		if err := tw.WriteHeader(&tar.Header{Typeflag: tar.TypeReg, Name: styledName(style, prefix+p), Mode: 0o644, Size: int64(len(files[p]))}); err != nil {
+			return nil, err
+		}
+		if _, err := tw.Write([]byte(files[p])); err != nil {
+			return nil, err
+		}
+	}
+	if err := tw.Close(); err != nil {
+		return nil, err
+	}
+	return buf.Bytes(), nil
+}
+
+func styledZipBytes(files map[string]string, prefix, style string) ([]byte, error) {
+	var buf bytes.Buffer
+	zw := zip.NewWriter(&buf)
+	for _, p := range sortedPaths(files) {
+		w, err := zw.CreateHeader(&zip.FileHeader{Name: styledName(style, prefix+p), Method: zip.Deflate})
+		if err != nil {
+			return nil, err
+		}
+		if _, err := w.Write([]byte(files[p])); err != nil {
+			return nil, err
+		}
+	}
+	if err := zw.Close(); err != nil {
+		return nil, err
+	}
+	return buf.Bytes(), nil
+}
+
+// stripPrefixes[n] is the wrapping directory that #strip_components=n has to remove.
+var stripPrefixes = []string{"", "top/", "top/second/"}
+
 func tarBytes(files map[string]string, prefix string, reverseWithDirs bool) ([]byte, error) {
 	var buf bytes.Buffer
 	tw := tar.NewWriter(&buf)
@@ -161,11 +245,55 @@ func (rn *runner) makePackagings(s *wsState) error {
 	if err != nil {
 		return err
 	}
+	all := map[string][]byte{}
+	// entry-name styles x wrapping depth (see entryStyles); clean names two levels deep; strip + subdir together
+	for n, prefix := range stripPrefixes {
+		for _, style := range entryStyles {
+			st, err := styledTarBytes(files, prefix, style)
+			if err != nil {
+				return err
+			}
+			all[fmt.Sprintf("%s%d.tar", style, n)] = st
+			if style == "dotslash" {
+				if all[fmt.Sprintf("%s%d.tar.gz", style, n)], err = gzipBytes(st); err != nil {
+					return err
+				}
+			}
+			if all[fmt.Sprintf("%s%d.zip", style, n)], err = styledZipBytes(files, prefix, style); err != nil {
+				return err
+			}
+		}
+	}
+	if all["clean2.tar"], err = tarBytes(files, "top/second/", false); err != nil {
+		return err
+	}
+	if all["clean2.zip"], err = zipBytes(files, "top/second/", false); err != nil {
+		return err
+	}
+	wrappedJunk := map[string]string{}
+	for p, text := range withJunk {
+		wrappedJunk["wrap/"+p] = text
+	}
+	if all["wrapsub.tar"], err = tarBytes(wrappedJunk, "", false); err != nil {
+		return err
+	}
+	if all["wrapsub.zip"], err = zipBytes(wrappedJunk, "", false); err != nil {
+		return err
+	}
+	if all["dotslash-sub.tar"], err = styledTarBytes(withJunk, "", "dotslash"); err != nil {
+		return err
+	}
+	if all["dotslash-wrapsub.tar"], err = styledTarBytes(wrappedJunk, "", "dotslash"); err != nil {
+		return err
+	}
 	for name, data := range map[string][]byte{
 		"ws.tar": t, "tar.dat": t, "ws.tar.gz": tgz, "ws.tgz": tgz, "targz.dat": tgz, "ws.tar.zst": tzst, "tarzst.dat": tzst,
 		"rev.tar": rev, "ws.zip": z, "zip.dat": z, "stored.zip": zs, "wrapped.tar": wrapped, "wrapped.tar.gz": wrappedGz,
 		"wrapped.zip": wz, "sub.tar": sub, "sub.zip": subZip,
 	} {
+		all[name] = data
+	}
+	for name, data := range all {
 		if err := os.WriteFile(filepath.Join(pk, name), data, 0o644); err != nil {
 			return err
 		}
@@ -184,6 +312,11 @@ type packaging struct {
 	pre  [][]string
 	ref  string
 	mode string // exact | export
+	// group/label/rank: packagings that vary one dimension (entry-name style x archive kind x strip count)
+	// share one signature group, labelled with the simplest failing member (see runner.flush)
+	group string
+	label string
+	rank  int
 }
 
 func (rn *runner) packagingItems(s *wsState) []func() {
@@ -214,6 +347,39 @@ func (rn *runner) packagingItems(s *wsState) []func() {
 		{name: "export-of-tar", pre: [][]string{{"export", "../pk/ws.tar", "-o", "../pk/exptar"}}, ref: "../pk/exptar", mode: "export"},
 		{name: "export-of-image", pre: [][]string{{"export", "../out/o.binpb", "-o", "../pk/expimg"}}, ref: "../pk/expimg", mode: "export-of-image"},
 	}
+	packs = append(packs,
+		packaging{name: "tar-strip-components-2", ref: "../pk/clean2.tar#strip_components=2"},
+		packaging{name: "zip-strip-components-2", ref: "../pk/clean2.zip#strip_components=2"},
+		packaging{name: "tar-strip-components-and-subdir", ref: "../pk/wrapsub.tar#strip_components=1,subdir=top"},
+		packaging{name: "zip-strip-components-and-subdir", ref: "../pk/wrapsub.zip#subdir=top,strip_components=1"},
+	)
+	// archives whose entry names are not in normal form: style x {tar, tar.gz (dotslash), zip} x strip_components 0..2,
+	// and the dotslash style with subdir / strip+subdir
+	rank := 1
+	addStyled := func(kind, style, opts, ref string) {
+		label := kind + "/" + style
+		if opts != "" {
+			label += "/" + opts
+		}
+		packs = append(packs, packaging{name: "entry-names:" + label, ref: ref, group: "packaging/unnormalized-entry-names", label: label, rank: rank})
+		rank++
+	}
+	for n := range stripPrefixes {
+		opts, frag := "", ""
+		if n > 0 {
+			opts = fmt.Sprintf("strip%d", n)
+			frag = fmt.Sprintf("#strip_components=%d", n)
+		}
+		for _, style := range entryStyles {
+			addStyled("tar", style, opts, fmt.Sprintf("../pk/%s%d.tar%s", style, n, frag))
+			if style == "dotslash" {
+				addStyled("tar.gz", style, opts, fmt.Sprintf("../pk/%s%d.tar.gz%s", style, n, frag))
+			}
+			addStyled("zip", style, opts, fmt.Sprintf("../pk/%s%d.zip%s", style, n, frag))
+		}
+	}
+	addStyled("tar", "dotslash", "subdir", "../pk/dotslash-sub.tar#subdir=top")
+	addStyled("tar", "dotslash", "strip1+subdir", "../pk/dotslash-wrapsub.tar#strip_components=1,subdir=top")
 	var items []func()
 	for _, p := range packs {
 		items = append(items, func() { rn.packagingCase(s, p) })
@@ -229,6 +395,9 @@ func (rn *runner) packagingCase(s *wsState, p packaging) {
 	}
 	ci := caseInfo{Part: "packaging", Workspace: s.def.Name, Files: s.def.Files, Detail: p.name}
 	group := "packaging/" + p.name
+	if p.group != "" {
+		group = p.group
+	}
 	for _, pre := range p.pre {
 		ci.Commands = append(ci.Commands, pre)
 		res := rn.pool.run(cwd, pre...)
@@ -239,7 +408,7 @@ func (rn *runner) packagingCase(s *wsState, p packaging) {
 				return
 			}
 			ci.Stderr = res.Stderr
-			rn.fail(group+"/prepare-exit", 0, "", nil, fmt.Sprintf("`buf %s` exits %d: %s", strings.Join(pre, " "), res.ExitCode, clip(res.Stderr, 400)), ci)
+			rn.fail(group+"/prepare-exit", p.rank, p.label, nil, fmt.Sprintf("`buf %s` exits %d: %s", strings.Join(pre, " "), res.ExitCode, clip(res.Stderr, 400)), ci)
 			return
 		}
 	}
@@ -248,12 +417,12 @@ func (rn *runner) packagingCase(s *wsState, p packaging) {
 	res := rn.pool.run(cwd, args...)
 	if res.ExitCode != 0 {
 		ci.Stderr = res.Stderr
-		rn.fail(group+"/exit", 0, "", nil, fmt.Sprintf("`buf %s` exits %d: %s", strings.Join(args, " "), res.ExitCode, clip(res.Stderr, 400)), ci)
+		rn.fail(group+"/exit", p.rank, p.label, nil, fmt.Sprintf("`buf %s` exits %d: %s", strings.Join(args, " "), res.ExitCode, clip(res.Stderr, 400)), ci)
 		return
 	}
 	got, err := decodeWith([]byte(res.Stdout), s.res)
 	if err != nil {
-		rn.fail(group+"/undecodable", 0, "", nil, err.Error(), ci)
+		rn.fail(group+"/undecodable", p.rank, p.label, nil, err.Error(), ci)
 		return
 	}
 	want := s.o
@@ -269,11 +438,15 @@ func (rn *runner) packagingCase(s *wsState, p packaging) {
 	kinds, detail := diffImages(want, got, !strings.HasPrefix(p.mode, "export") || len(s.def.Modules) == 1)
 	for _, k := range kinds {
 		ci.Detail = p.name + ": " + detail
-		rn.fail(group+"/"+k, 0, "", nil, fmt.Sprintf("packaging %s builds a different image than the directory: %s", p.name, detail), ci)
+		rn.fail(group+"/"+k, p.rank, p.label, nil, fmt.Sprintf("packaging %s builds a different image than the directory: %s", p.name, detail), ci)
 	}
 	if len(kinds) == 0 {
 		rn.count("pack_equal", 1)
-		rn.count("pack_equal_"+p.name, 1)
+		if p.group != "" {
+			rn.count("pack_equal_unnormalized_entry_names", 1)
+		} else {
+			rn.count("pack_equal_"+p.name, 1)
+		}
 		rn.r.Distinct("pk|" + s.def.Name + "|" + p.name)
 	}
 }
